@@ -1092,6 +1092,37 @@ package hotline
 //@   property C04 C15
 //@   before call golang.org/x/crypto/bcrypt.GenerateFromPassword assert same(arg0, pwd)
 
+// Resume data (field 203): "RFLT", version 2 bytes, 34 reserved, fork count 2, then 16 bytes per
+// fork: fork type 4, offset 4, 8 reserved.  The encoder emits exactly the object's fields in that
+// order (the clause covers the magic, version, count, and each entry's fork type and offset; the
+// reserved bytes are not under it); the constructors write the magic, version 1, the number of
+// list entries, "DATA" and the given offset.
+//@ func (frd *FileResumeData) BinaryMarshal() (r []byte, err error)
+//@   property C01 C09
+//@   requires frd != nil
+//@   ensures err == nil && len(r) == 42 + 16*len(frd.ForkInfoList)
+//@   ensures bytes(r)[0:4] == bytes(frd.Format) && bytes(r)[4:6] == bytes(frd.Version) && bytes(r)[40:42] == bytes(frd.ForkCount)
+//@   ensures forall(j, 0, len(frd.ForkInfoList), r[42+16*j+0] == frd.ForkInfoList[j].Fork[0] && r[42+16*j+1] == frd.ForkInfoList[j].Fork[1] && r[42+16*j+2] == frd.ForkInfoList[j].Fork[2] && r[42+16*j+3] == frd.ForkInfoList[j].Fork[3] && r[42+16*j+4] == frd.ForkInfoList[j].DataSize[0] && r[42+16*j+5] == frd.ForkInfoList[j].DataSize[1] && r[42+16*j+6] == frd.ForkInfoList[j].DataSize[2] && r[42+16*j+7] == frd.ForkInfoList[j].DataSize[3])
+//@   loop 1 invariant buf.off == 0 && len(buf.buf) == 42 + 16*(rangeindex+1) && fresh(buf.buf) && disjoint(buf.buf, &buf) && -1 <= rangeindex && rangeindex + 1 <= len(frd.ForkInfoList)
+//@   loop 1 invariant bytes(buf.buf)[0:4] == bytes(frd.Format) && bytes(buf.buf)[4:6] == bytes(frd.Version) && bytes(buf.buf)[40:42] == bytes(frd.ForkCount)
+//@   loop 1 invariant forall(j, 0, rangeindex+1, buf.buf[42+16*j+0] == frd.ForkInfoList[j].Fork[0] && buf.buf[42+16*j+1] == frd.ForkInfoList[j].Fork[1] && buf.buf[42+16*j+2] == frd.ForkInfoList[j].Fork[2] && buf.buf[42+16*j+3] == frd.ForkInfoList[j].Fork[3] && buf.buf[42+16*j+4] == frd.ForkInfoList[j].DataSize[0] && buf.buf[42+16*j+5] == frd.ForkInfoList[j].DataSize[1] && buf.buf[42+16*j+6] == frd.ForkInfoList[j].DataSize[2] && buf.buf[42+16*j+7] == frd.ForkInfoList[j].DataSize[3])
+//@   loop 1 modifies &buf
+//@   modifies nothing
+
+//@ func NewForkInfoList(b []byte) (r *ForkInfoList)
+//@   property C01 C09
+//@   requires len(b) >= 4
+//@   ensures r != nil && fresh(r) && bytes(r.Fork) == "DATA" && bytes(r.DataSize) == bytes(b)[0:4] && bytes(r.RSVDA) == zeros(4) && bytes(r.RSVDB) == zeros(4)
+//@   modifies nothing
+//@   nopanic
+
+//@ func NewFileResumeData(list []ForkInfoList) (r *FileResumeData)
+//@   property C01 C09
+//@   requires len(list) <= 255
+//@   ensures r != nil && fresh(r) && bytes(r.Format) == "RFLT" && bytes(r.Version) == seq(0,1) && bytes(r.RSVD) == zeros(34)
+//@   ensures r.ForkCount[0] == 0 && r.ForkCount[1] == len(list) && same(r.ForkInfoList, list)
+//@   modifies nothing
+
 // C18: a decoded news path has exactly as many components as its count field says -- one per
 // scanned name, empty names included -- so the component a request addresses last is the one the
 // client sent last.
